@@ -885,6 +885,31 @@ class _FunctionInformationCollector(ast.RopeNodeVisitor):
         if node.pattern:
             self.visit(node.pattern)
 
+    def _MatchStar(self, node):
+        if node.name:
+            self._written_variable(node.name, node.lineno)
+
+    def _MatchMapping(self, node):
+        if node.rest:
+            self._written_variable(node.rest, node.lineno)
+        for child in ast.iter_child_nodes(node):
+            self.visit(child)
+
+    def _ExceptHandler(self, node):
+        if node.name:
+            self._written_variable(node.name, node.lineno)
+        for child in ast.iter_child_nodes(node):
+            self.visit(child)
+
+    def _Import(self, node):
+        for alias in node.names:
+            name = alias.asname or alias.name.split(".")[0]
+            if name != "*":
+                self._written_variable(name, node.lineno)
+
+    def _ImportFrom(self, node):
+        self._Import(node)
+
     def _Assign(self, node):
         self.visit(node.value)
         for child in node.targets:
